@@ -82,7 +82,10 @@ CHECKS = {
              "written, under the same ids, byte-identical, every parent before its children, and the ledger rebuilt from "
              "the store has the same unspent set at every block as the in-memory state. Alongside (structural scans of the "
              "real source, lemma C08.columns): every field below Block is written to a column and read back into the same "
-             "constructor argument, each INSERT's arity equals its table's column count, one BEGIN..COMMIT per flush.",
+             "constructor argument, each INSERT's arity equals its table's column count, one BEGIN..COMMIT per flush. Proved "
+             "from source (the buffer side): add_block_to_buffer appends exactly the block; flush_blocks_to_disk hands "
+             "exactly the buffered blocks, in arrival order, to ONE write and empties the buffer, and leaves buffer and store "
+             "as they were when the write fails.",
         note="sqlite itself is assumed (A-SQL). Known finding (recorded, not repaired): when two stored fork blocks contain "
              "the same transaction, the second reads back without it (transaction_locator is keyed by the transaction id "
              "alone + INSERT OR IGNORE); the check prints KNOWN-FINDING for exactly that case and reports any other "
